@@ -65,13 +65,14 @@ class Contract:
                 out.append((item[0], tobool(item[1])))
         return out
 
-    def eval_ensures(self, c):
+    def eval_ensures(self, c, with_uses=False):
         out = []
         for fn in self._ensures:
             for item in fn(c):
                 name, term = item[0], tobool(item[1])
                 tags = list(item[2]) if len(item) > 2 else []
-                out.append((name, term, tags))
+                uses = list(item[3]) if len(item) > 3 and item[3] is not None else None
+                out.append((name, term, tags, uses) if with_uses else (name, term, tags))
         return out
 
     def eval_raises(self, c):
